@@ -109,6 +109,37 @@ def judge(probe, text, res, label, own_line_comments=False, cli=False):
             return
         if c0:
             res.count("comments-preserved", len(c0))
+    # the printer takes the indent width as a parameter (the CLI passes 4): the same three oracles at another width, chosen by
+    # the text so that a replay sees the same one.  Width 0 puts everything flush left, 1 and 3 are odd, 8 is wide.
+    h = sum(text.encode("utf-8")) % 12
+    if h < 5:
+        w = (0, 1, 2, 3, 8)[h]
+        fw = probe.safe_call({"op": "fmt", "text": text, "indent": w})
+        if "panic" in fw or "crash" in fw or "hang" in fw:
+            res.violation(["fmt-at-other-indent-width", "crash"], {"text": text, "indent": w}, {k: str(fw.get(k))[:200] for k in ("panic", "crash", "hang") if k in fw})
+            return
+        if not fw.get("ok"):
+            res.violation(["fmt-at-other-indent-width", "fails"], {"text": text, "indent": w}, {"err": fw.get("err", "")[:200]})
+            return
+        pw = probe.safe_call({"op": "parse", "text": fw["text"]})
+        if not pw.get("ok"):
+            res.violation(["fmt-at-other-indent-width", "output-unparsable"], {"text": text, "indent": w}, {"formatted": fw["text"][:600], "err": str(pw.get("err", ""))[:300]})
+            return
+        d = first_diff(p0["ast"], pw["ast"])
+        if d:
+            res.violation(["fmt-at-other-indent-width", "changes-tree"], {"text": text, "indent": w}, {"formatted": fw["text"][:600], "path": list(d[0]), "key": d[1]})
+            return
+        if c0 is not None and comments_of(fw["text"]) != c0:
+            res.violation(["fmt-at-other-indent-width", "comments"], {"text": text, "indent": w}, {"formatted": fw["text"][:600], "before": c0[:12], "after": (comments_of(fw["text"]) or [])[:12]})
+            return
+        # (no comparison of the two texts beyond that: the printer also writes the indent in the middle of a line before an
+        #  embedded comment, so the texts legitimately differ in more than leading blanks; the property does not speak of it)
+        if own_line_comments:
+            fw2 = probe.safe_call({"op": "fmt", "text": fw["text"], "indent": w})
+            if fw2.get("ok") and fw2["text"] != fw["text"]:
+                res.violation(["fmt-at-other-indent-width", "not-a-fixed-point"], {"text": text, "indent": w}, {"once": fw["text"][:800], "twice": fw2["text"][:800]})
+                return
+        res.count("indent-width-%d-agrees" % w)
     if own_line_comments:
         f2 = probe.safe_call({"op": "fmt", "text": ft})
         if f2.get("ok"):
